@@ -708,7 +708,7 @@ func genEntries(r *hx.Rand, depth int, perm bool) []ldNode {
 				continue
 			}
 			n := ldNode{N: name, T: "d", Size: -1, Kids: genEntries(r, depth+1, perm)}
-			if perm && r.Chance(1, 5) {
+			if perm && r.Chance(1, 3) {
 				n.Locked = true
 			}
 			ns = append(ns, n)
@@ -734,7 +734,7 @@ func genEntries(r *hx.Rand, depth int, perm bool) []ldNode {
 
 func genPathCase(r *hx.Rand) loadersIn {
 	in := loadersIn{Kind: "path"}
-	perm := unprivAvailable() && r.Chance(1, 6)
+	perm := unprivAvailable() && r.Chance(1, 4)
 	switch x := r.Intn(100); {
 	case x < 74:
 		in.Root = "dir"
